@@ -2793,6 +2793,9 @@ static Node *unary(Token **rest, Token *tok) {
     add_type(node);
     if (is_integer(node->ty) && node->ty->size < 4)
       return new_cast(node, ty_int);
+    if (node->kind == ND_MEMBER && node->member->is_bitfield && is_integer(node->ty) &&
+        node->ty->size == 4 && node->member->bit_width < 32)
+      return new_cast(node, ty_int);
     return node;
   }
 
